@@ -73,6 +73,12 @@ func (er *entryReaderImpl) Read(now time.Time) ([]*entry, error) {
 	addEntriesFn := func(workflow *dag.DAG, s []dag.Schedule, e entryType) {
 		for _, ss := range s {
 			next := ss.Parsed.Next(now)
+			if next.IsZero() {
+				// an expression that never matches (e.g. "0 0 31 2 *"): the
+				// cron library answers with the zero time, which must not be
+				// mistaken for a minute that is due
+				continue
+			}
 			key := entryKey{workflow: workflow, e: e, next: next}
 			if seen[key] {
 				continue
